@@ -256,6 +256,21 @@ class SendExec:
                     pos += n
                 recv, rerr = rs.result()
                 runs.append({"seg": sname, "recv": recv, "rerr": rerr})
+        if extra_runs and wire and self.cfg["notakeover"] and len(wire) <= 120000:
+            # the peer of a no_context_takeover sender may drop its inflate context after every
+            # message: a reader whose inflater is discarded at each message boundary
+            rs = ReaderSide(self.loop, compress=True)
+            seen = 0
+            for i in range(0, len(wire), 64):
+                for j in range(i, min(i + 64, len(wire))):
+                    rs.data_received(wire[j:j + 1])
+                    if rs.reader._state == 1 and getattr(rs.reader, "_opcode", -1) == -1:  # at a frame boundary, no message open
+                        self.loop.run_until_idle()
+                        if len(rs.got) != seen:
+                            seen = len(rs.got)
+                            rs.reader._decompressobj = None
+            recv, rerr = rs.result()
+            runs.append({"seg": "fresh-inflater-per-message", "recv": recv, "rerr": rerr})
         full = len(wire) <= WIRE_FULL_MAX
         cfg = {"mask": bool(self.cfg["mask"]), "compress": int(self.cfg["compress"]),
                "notakeover": bool(self.cfg["notakeover"]), "sent": self.sent, "wirefull": full,
@@ -317,8 +332,11 @@ def run_recipe(ctx: Ctx, loop: steploop.StepLoop, recipe: dict, src: str) -> dic
     """recipe = {cfg, seed, messages: [[sender, op, size, shape, ovr]], schedule: [[act, who]]}"""
     rng = _random.Random(recipe["seed"])
     x = SendExec(loop, recipe["cfg"], recipe["seed"])
-    for k, (sender, op, size, shape, ovr) in enumerate(recipe["messages"]):
-        if op == G.OP_CLOSE:
+    for k, ent in enumerate(recipe["messages"]):
+        sender, op, size, shape, ovr = ent[:5]
+        if len(ent) > 5:                      # explicit payload (hex)
+            payload = bytes.fromhex(ent[5])
+        elif op == G.OP_CLOSE:
             payload = struct.pack("!H", 1000) + make_payload(rng, max(0, min(size, 123) - 2), G.OP_TEXT, k + 1, "utf8")
         else:
             payload = make_payload(rng, size, op, k + 1, shape)
@@ -553,7 +571,10 @@ def known_deviation_probes(ctx: Ctx, loop: steploop.StepLoop) -> Tuple[bool, boo
     """Minimal real executions of the two named deviations; tells which variant of the model
     mirrors the code.  (1) DESIGN section 5 item 10: shared, override, shared under context takeover.
     (2) a large compressed send is in the executor when close() writes the Close frame."""
-    msgs = [["a", G.OP_TEXT, 40, "repeat", 0], ["a", G.OP_TEXT, 40, "repeat", 9], ["a", G.OP_TEXT, 40, "repeat", 0]]
+    body = bytes((i * 37 + 11) & 0xFF for i in range(48))
+    msgs = [["a", G.OP_BIN, 50, "", 0, (b"\x01\x01" + body).hex()],
+            ["a", G.OP_TEXT, 42, "", 9, (b"override " * 4 + b"end...").hex()],
+            ["a", G.OP_BIN, 50, "", 0, (b"\x03\x03" + body).hex()]]      # refers back to the first message
     r1 = {"cfg": {"mask": False, "compress": 15, "notakeover": False}, "seed": 7, "messages": msgs,
           "schedule": [["spawn", "a"], ["idle", ""]]}
     r2 = copy.deepcopy(r1)                      # with notakeover the same sequence must be fine
@@ -584,7 +605,8 @@ def run(ctx: Ctx) -> None:
     loop = steploop.new_loop()
     ovr_found, close_found = known_deviation_probes(ctx, loop)
     ctx.log(f"probes on the real writer: override/takeover deviation={ovr_found}, data-after-close={close_found}")
-    model_runs(ctx, ovr_found, close_found)
+    if not os.environ.get("VERIF_SKIP_MODELS"):       # (sensitivity experiments only: the models do not depend on /repo)
+        model_runs(ctx, ovr_found, close_found)
     drive_model_behaviours(ctx, loop)
     ctx.log(f"tlc-sim replays done: traces={ctx.traces}")
     drive_matrix(ctx, loop)
